@@ -174,7 +174,7 @@ PROPS = {
                  quick=dict(checks=240, shards=8, budget_s=300),
                  thorough=dict(checks=6000, shards=12, budget_s=3000, shrink="2m")),
             part("mesh", "netprops", "TestC18Mesh", "C18.mesh",
-                 quick=dict(checks=48, shards=8, budget_s=400),
+                 quick=dict(checks=96, shards=8, budget_s=400),
                  thorough=dict(checks=400, shards=12, budget_s=3300, shrink="3m")),
         ],
     ),
